@@ -44,7 +44,9 @@ void slice_case(Ctx &c, Block &b, int ai) {
                     double ps = s.start[d] * s.factor[d], pe = s.end[d] * s.factor[d];
                     PairIdx pi = oracle_pair(ax, ps, pe, m);
                     if (s.start[d] > s.end[d]) { rg.oob = true; rg.why = "start>end"; }
-                    else if (!pi.valid) { maybe_empty = true; rg = region_point(ax, ps, n); }   // empty region with start <= end: unspecified (error or point fallback)
+                    else if (!pi.valid && s.start[d] == s.end[d]) rg = region_point(ax, ps, n);   // zero width: first element at or after the position (docs: same rules as for tags)
+                    else if (!pi.valid && s.end[d] - s.start[d] <= DBL_EPSILON) { maybe_empty = true; rg = region_point(ax, ps, n); }   // width within the library's epsilon: error or point, not judged
+                    else if (!pi.valid) { rg.oob = true; rg.why = "empty"; }
                     else rg = region_range(ax, ps, pe, m, n);
                 }
                 if (rg.oob) { want.oob = true; want.why = "dim" + str(d) + ":" + rg.why; }
